@@ -34,6 +34,7 @@ def run(c):
     c.assumptions += ['the engines are compared through the recording monitor, logger, step() results and getConfiguration() (vd_run.cpp)',
                       'Lua/Promela/null datamodel runs of the same chart share one rendering of its expressions']
     diffs = {}
+    mdis = {}
     nontriv = set()
     for i, case in enumerate(cases):
         la, fa = res['large'][i], res['fast'][i]
@@ -43,8 +44,17 @@ def run(c):
         ta = canon(la)[0]
         if sum(1 for t in ta if t == 'MS{') > 1 and ('(N parallel' in G.sx_tree(case['tree']) or '(N h' in G.sx_tree(case['tree'])):
             nontriv.add(hash((G.sx_tree(case['tree']), tuple(case['events']))))
+        okl, _ = corr_equal(la, res['model'][i])
+        okf, _ = corr_equal(fa, res['model_fast'][i])
+        if not okl:
+            mdis.setdefault('large', []).append(i)
+        if not okf:
+            mdis.setdefault('fast', []).append(i)
         if canon(la) != canon(fa):
             cls, pos = classify(la, fa, res['spec'][i])
+            # a difference is a *known* one only if each engine behaves exactly as its Coq model
+            if not (okl and okf):
+                cls += '+model-disagrees'
             diffs.setdefault(cls, []).append(i)
     # the W3C IRP corpus, both engines (thorough: all; quick: a sample)
     irp = irp_compare(c)
@@ -54,6 +64,7 @@ def run(c):
                      'results, configuration after every step, data values at the end), plus the W3C IRP documents for lua/promela/null run with both '
                      'engines; non-trivial = distinct (chart, history) with parallel or history states that takes at least one non-initial microstep')
     c.cov['engine_differences'] = {k: len(v) for k, v in diffs.items()}
+    c.cov['model_disagreements'] = {k: len(v) for k, v in mdis.items()}
     c.cov['irp'] = irp
     c.cov['samples'] = [{'scxml': G.to_scxml(cases[i]['tree'], cases[i]['dm'])[:400], 'events': [e.decode() for e in cases[i]['events']], 'large': res['large'][i][:300], 'fast': res['fast'][i][:300]}
                         for i in (len(cases) - 2,)]
@@ -74,6 +85,15 @@ def run(c):
         else:
             c.violation({'kind': 'oracle', 'class': 'irp', 'document': d['document'], 'large': d['large'], 'fast': d['fast'],
                          'replay_cmd': "echo 'runfile large %s 200' | /verif/.build/vdriver-hooks/vdriver; same with fast" % d['document']})
+    for eng, idxs in mdis.items():
+        if any(k.endswith('+model-disagrees') for k in diffs):
+            break
+        i = shrink_order(idxs, cases)[0]
+        ok, d = corr_equal(res[eng][i], res['model' if eng == 'large' else 'model_fast'][i])
+        p = d[0] or 0
+        c.violation(case_replay(c, cases[i], {'kind': 'correspondence', 'engine': eng, 'count': len(idxs),
+                                              'what': 'the %s engine and its Coq model differ; the two engines still agree with each other on these inputs' % eng,
+                                              'model': ' '.join(d[2][max(0, p - 8):p + 8]), 'observed': ' '.join(d[1][max(0, p - 8):p + 8])}), no_input=True)
     if broken and not diffs:
         for b in broken:
             c.violation({'kind': 'obligation', 'theorem': b['name'], 'why': b.get('why', '')}, no_input=True)
